@@ -71,6 +71,30 @@ func c12lrLogout(val string) (code int) {
 	return w.Code
 }
 
+// c12lrLogoutMW sends the logout through the authentication middleware, as
+// the product routes it.
+func c12lrLogoutMW(val string) (ran bool, code int) {
+	r := httptest.NewRequest(http.MethodGet, "/control/logout", nil)
+	r.RemoteAddr = "192.0.2.10:40003"
+	r.AddCookie(&http.Cookie{Name: sessionCookieName, Value: val})
+	w := httptest.NewRecorder()
+	optionalAuth(func(w http.ResponseWriter, r *http.Request) {
+		ran = true
+		handleLogout(w, r)
+	})(w, r)
+	return ran, w.Code
+}
+
+func c12lrLoginWrong() (code int) {
+	body, _ := json.Marshal(map[string]string{"name": "admin", "password": "pw-adminx"})
+	r := httptest.NewRequest(http.MethodPost, "/control/login", bytes.NewReader(body))
+	r.RemoteAddr = "192.0.2.10:40004"
+	r.Header.Set("Content-Type", "application/json")
+	w := httptest.NewRecorder()
+	handleLogin(w, r)
+	return w.Code
+}
+
 func c12lrLogin() (val string, code int) {
 	body, _ := json.Marshal(map[string]string{"name": "admin", "password": "pw-admin"})
 	r := httptest.NewRequest(http.MethodPost, "/control/login", bytes.NewReader(body))
@@ -325,7 +349,151 @@ func TestVerifC12LogoutRace(t *testing.T) {
 		}
 	}
 
+	// ---- family 2: the racing partner of the logout is a login (or another
+	// logout, a request with an expired cookie, a failed login) --------------
+	//
+	// Set-up per round, through the product's own addSession: 2-6 sessions
+	// whose expiry is in the past (memory and file, never presented since),
+	// one live session T and one more live session T2.  Then GET
+	// /control/logout with T (through optionalAuth, as routed) runs together
+	// with the partner(s).  After all returned T must be refused, now and
+	// after Auth is re-created from the file.
+	rounds2 := verifkit.Pick(300, 3000)
+	mkSession := func(expire uint32) string {
+		tok := newSessionToken()
+		a.addSession(tok, &session{userName: "admin", expire: expire})
+		return hex.EncodeToString(tok)
+	}
+	partnerKinds := []string{"login", "login", "login", "login", "login-wrong-password", "other-logout", "expired-cookie-request", "login+expired-cookie-request", "login+other-logout"}
+	for i := 0; i < rounds2 && a != nil; i++ {
+		now := uint32(time.Now().Unix())
+		nExp := 2 + rng.Intn(5)
+		val := mkSession(now + c12lrTTL)
+		val2 := mkSession(now + c12lrTTL)
+		// The expired sessions are put into the table and the file directly
+		// (under the product's lock), after the live ones: a product that
+		// purges on addSession would otherwise remove them during set-up.
+		var expired []string
+		for j := 0; j < nExp; j++ {
+			tok := newSessionToken()
+			es := &session{userName: "admin", expire: now - uint32(1+rng.Intn(86400))}
+			a.lock.Lock()
+			a.sessions[hex.EncodeToString(tok)] = es
+			a.lock.Unlock()
+			a.storeSession(tok, es)
+			expired = append(expired, hex.EncodeToString(tok))
+		}
+		if ran, _ := c12lrProbe(val); !ran {
+			rep.Violate("logoutrace:fresh-session-refused", "a live session was refused before the round", map[string]any{"round": i})
+			return
+		}
+		kind := partnerKinds[rng.Intn(len(partnerKinds))]
+		var reqs []c12lrReq
+		for _, pk := range strings.Split(kind, "+") {
+			reqs = append(reqs, c12lrReq{Kind: pk})
+		}
+		reqs = append(reqs, c12lrReq{Kind: "logout"})
+		lo := &reqs[len(reqs)-1]
+		switch i % 4 {
+		case 1:
+			lo.DelayUS = offsets[rng.Intn(len(offsets))] * 10
+		case 2:
+			reqs[0].DelayUS = offsets[rng.Intn(len(offsets))]
+		case 3:
+			lo.DelayUS = int64(rng.Intn(20000))
+		}
+		var ready, done sync.WaitGroup
+		var gate atomic.Int64
+		ready.Add(len(reqs))
+		done.Add(len(reqs))
+		for j := range reqs {
+			go func(q *c12lrReq) {
+				defer done.Done()
+				ready.Done()
+				var t0 int64
+				for t0 = gate.Load(); t0 == 0; t0 = gate.Load() {
+				}
+				rel := time.Unix(0, t0)
+				for time.Since(rel) < time.Duration(q.DelayUS)*time.Microsecond {
+				}
+				q.StartNS = int64(time.Since(rel))
+				switch q.Kind {
+				case "logout":
+					q.Ran, q.Status = c12lrLogoutMW(val)
+				case "other-logout":
+					q.Ran, q.Status = c12lrLogoutMW(val2)
+				case "login":
+					_, q.Status = c12lrLogin()
+				case "login-wrong-password":
+					q.Status = c12lrLoginWrong()
+				case "expired-cookie-request":
+					q.Ran, q.Status = c12lrProbe(expired[0])
+				}
+				q.EndNS = int64(time.Since(rel))
+			}(&reqs[j])
+		}
+		ready.Wait()
+		gate.Store(time.Now().UnixNano())
+		done.Wait()
+
+		rep.Event("family2_rounds")
+		rep.Event("family2_rounds:" + kind)
+		rd := c12lrRound{Round: i, Requests: reqs}
+		if !lo.Ran || lo.Status != http.StatusFound {
+			rep.Unspec("logout_not_answered_302")
+			continue
+		}
+		overl := false
+		for j := range reqs[:len(reqs)-1] {
+			q := &reqs[j]
+			if q.StartNS < lo.EndNS && lo.StartNS < q.EndNS {
+				q.Overlaps = true
+				overl = true
+			}
+			if q.Kind == "expired-cookie-request" && q.Ran {
+				rep.Violate("logoutrace:expired-cookie-accepted", "a request with an expired session cookie was authenticated",
+					map[string]any{"round": rd})
+			}
+		}
+		if overl {
+			rep.Event("family2_rounds_with_partner_overlapping_logout")
+			if strings.HasPrefix(kind, "login") && !strings.HasPrefix(kind, "login-wrong") {
+				rep.Event("family2_rounds_with_login_overlapping_logout")
+			}
+		}
+		ran, pcode := c12lrProbe(val)
+		rep.Event("probes_after_logout")
+		rd.After = fmt.Sprintf("probe: handler_ran=%v status=%d", ran, pcode)
+		wit := map[string]any{"round": rd, "session_ttl_s": c12lrTTL, "expired_unpresented_sessions_in_memory": nExp,
+			"note": "family 2: the logout of a live session runs together with the listed partner(s); times in ns since the release; sessions were created with Auth.addSession"}
+		if ran {
+			rep.Violate("logoutrace:accepted-after-logout:"+strings.Split(kind, "+")[0]+"-in-flight",
+				"a session cookie authenticated a request after its logout had been answered (302) and all concurrent calls had returned", wit)
+		}
+		loggedOut = append(loggedOut, outTok{val: val, round: rd})
+		for _, q := range reqs {
+			if q.Kind == "other-logout" && q.Ran && q.Status == http.StatusFound {
+				if ran2, _ := c12lrProbe(val2); ran2 {
+					rep.Violate("logoutrace:accepted-after-logout:other-logout-in-flight",
+						"the session logged out by the concurrent second logout authenticated a request afterwards", wit)
+				}
+				loggedOut = append(loggedOut, outTok{val: val2, round: rd})
+			}
+		}
+		rep.Eval(overl, fmt.Sprintf("F2|%s|%d|%d|%v", kind, lo.DelayUS, reqs[0].DelayUS, overl))
+		rep.Class("family2:" + kind)
+		if i < 2 {
+			rep.Sample(rd)
+		}
+		if (i+1)%100 == 0 || i == rounds2-1 {
+			restartCheck()
+		}
+	}
+
 	if !rep.Violated() {
+		if v := rep.Events["family2_rounds_with_login_overlapping_logout"]; v < rounds2/10 {
+			rep.Inconcl(fmt.Sprintf("too few monitor events: family2_rounds_with_login_overlapping_logout=%d<%d", v, rounds2/10))
+		}
 		need := map[string]int{
 			"rounds_with_request_overlapping_logout":          rounds / 10,
 			"rounds_with_prolongation(request accepted)":      rounds / 10,
